@@ -52,6 +52,56 @@ def rename_seed(file: str) -> Seed:
     return Seed(f"rename-locals:{file}", "neutral", file, old=RENAME)
 
 
+INVERT = "\0invert-if-else"
+NOOP = "\0insert-noop"
+
+
+def invert_seed(file: str) -> Seed:
+    """Neutral seed: every two-armed `if c: A else: B` (not an elif chain) becomes `if not (c): B else: A`."""
+    return Seed(f"invert-if-else:{file}", "neutral", file, old=INVERT)
+
+
+def noop_seed(file: str) -> Seed:
+    """Neutral seed: every function body starts with an assignment to a fresh local that is never read."""
+    return Seed(f"insert-noop:{file}", "neutral", file, old=NOOP)
+
+
+def invert_if_else(src: str) -> str:
+    tree = ast.parse(src)
+
+    class T(ast.NodeTransformer):
+        def visit_If(self, node: ast.If):
+            self.generic_visit(node)
+            if node.orelse and not (len(node.orelse) == 1 and isinstance(node.orelse[0], ast.If)):
+                # keep walrus bindings and chained elifs as they are
+                if any(isinstance(x, ast.NamedExpr) for x in ast.walk(node.test)):
+                    return node
+                t = node.test
+                if isinstance(t, ast.UnaryOp) and isinstance(t.op, ast.Not):
+                    nt = t.operand
+                else:
+                    nt = ast.UnaryOp(op=ast.Not(), operand=t)
+                return ast.copy_location(ast.If(test=nt, body=node.orelse, orelse=node.body), node)
+            return node
+
+    tree = T().visit(tree)
+    ast.fix_missing_locations(tree)
+    return ast.unparse(tree) + "\n"
+
+
+def insert_noop(src: str) -> str:
+    tree = ast.parse(src)
+    for fn in ast.walk(tree):
+        if isinstance(fn, (ast.FunctionDef, ast.AsyncFunctionDef)):
+            i = 1 if (fn.body and isinstance(fn.body[0], ast.Expr) and isinstance(fn.body[0].value, ast.Constant) and isinstance(fn.body[0].value.value, str)) else 0
+            if any(isinstance(x, (ast.Yield, ast.YieldFrom)) for x in ast.walk(fn)) and False:
+                continue
+            stmt = ast.parse("zq_unused_rn = None").body[0]
+            fn.body.insert(i, stmt)
+    ast.fix_missing_locations(tree)
+    return ast.unparse(tree) + "\n"
+
+
 def alpha_rename(src: str, suffix: str = "_rn") -> str:
     tree = ast.parse(src)
     taken = {n.id for n in ast.walk(tree) if isinstance(n, ast.Name)}
@@ -130,6 +180,12 @@ def _apply(repo_root, seed: Seed) -> dict[str, str] | None:
         if old == RENAME:
             out[file] = alpha_rename(src)
             continue
+        if old == INVERT:
+            out[file] = invert_if_else(src)
+            continue
+        if old == NOOP:
+            out[file] = insert_noop(src)
+            continue
         if src.count(old) != count:
             return None
         out[file] = src.replace(old, new)
@@ -183,8 +239,15 @@ def run_selftest(prop: str, repo: Repo) -> dict:
     if not seeds:
         raise AnalysisError(f"no self-test seeds for {prop}")
     # every file that is re-laid-out is also alpha-renamed: no rule may depend on how a local is spelled
-    have = {s.file for s in seeds if s.old == RENAME}
-    seeds += [rename_seed(s.file) for s in seeds if s.kind == "neutral" and s.old is None and s.file not in have]
+    files = []
+    for s_ in seeds:
+        if s_.kind == "neutral" and s_.old is None and s_.file not in files:
+            files.append(s_.file)
+    have = {(s_.file, s_.old) for s_ in seeds}
+    for fl in files:
+        for mk, tag in ((rename_seed, RENAME), (invert_seed, INVERT), (noop_seed, NOOP)):
+            if (fl, tag) not in have:
+                seeds.append(mk(fl))
     base = _identities(prop, repo)
     jobs = [(prop, str(repo.root), s, base) for s in seeds]
     workers = min(16, len(jobs), os.cpu_count() or 4)
